@@ -78,28 +78,55 @@ theorem leaf_classes :
     leafSummary.lookup "protocol::encode_manifest" = some [.length_error] ∧
     leafSummary.lookup "crypto::Shamir::combine" = some [.invalid_argument] := by decide +kernel
 
-/-! ### "stop serving others": the serial accept loops (known finding C35-K1)
+/-! ### "stop serving others": the serial accept loops
 
-Full statement one would like: a client that connects and then stays silent does not delay any
-other client.  It is false for a serial accept loop that reads without a bound
-(`C35_counterexample`); what holds is `C35_partial`: when no queued connection is silent every
-client is reached, and with a read timeout `T` a client is reached after at most
-`(number of clients before it) × max T (longest request)`.  The transport accept loop has the
-bound after `fixes/C35-accept-peer-id-timeout` (2 s for the whole inbound handshake); the control
-accept loop has none: the finding listed in known_findings.d/C35.json, observed by `rt stall`. -/
+Both accept threads take one connection at a time.  A client that connects and stays silent, or that
+never reads its answer, holds the thread in a blocking `recv` / `send`.  Statement one needs: every
+blocking step of an accept thread on an accepted connection is bounded, so the stalled client is
+dropped after the timeout and the next client is served (`accept_threads_bounded`,
+`next_client_served`).  It holds since `fixes/C35-accept-peer-id-timeout` (transport: the whole
+inbound handshake under kHandshakeTimeout) and `fixes/C35-control-client-io-timeout` (control:
+SO_RCVTIMEO and SO_SNDTIMEO on every accepted client).  `C35_counterexample` keeps the statement about
+the unrepaired variant (a flag that is `false`): there the next client is never reached. -/
 
-/-- without a read timeout, one silent client ahead in the queue and the next client is never reached -/
-theorem C35_counterexample : pickedUpAt none [.silent, .completes 1] 1 = none := by decide
+/-- (T) the three flags regenerated from the source: a receive timeout is set before the first blocking
+    read of an accepted transport connection; the control accept loop sets SO_RCVTIMEO and SO_SNDTIMEO on
+    an accepted client before handling it.  Removing one of them breaks this obligation. -/
+theorem accept_threads_bounded :
+    transportPeerIdTimeout = true ∧ controlReadTimeout = true ∧ controlWriteTimeout = true := by decide
 
-/-- what does hold for the serial accept loops -/
+/-- with the bounds the source has (whatever the timeout constant `T` is), every queued control client is
+    reached — whatever the clients before it do: stay silent, never read, or behave — after at most
+    `k · (T + B)` when no request costs more than `B` -/
+theorem next_client_served (T B : Nat) (cs : List Conn) (hB : ∀ c ∈ cs, c.work ≤ B) (k : Nat) :
+    ∃ t, pickedUpAt (ioBound controlReadTimeout T) (ioBound controlWriteTimeout T) cs k = some t ∧ t ≤ k * (T + B) := by
+  obtain ⟨_, hr, hw⟩ := accept_threads_bounded
+  rw [hr, hw]
+  exact pickedUpAt_bounded T B cs hB k
+
+/-- the unrepaired variant: without a read bound the client behind a silent one is never reached; with a
+    read bound but no write bound the client behind one that never reads is never reached -/
+theorem C35_counterexample :
+    pickedUpAt (ioBound false 5) (ioBound false 5) [.silent, .completes 1] 1 = none ∧
+    pickedUpAt (ioBound true 5) (ioBound false 5) [.neverReads 0, .completes 1] 1 = none := by decide
+
+/-- what holds for a serial accept loop in general: well-behaved clients are always all reached; with both
+    bounds `T` in place everybody is reached within `k · (T + B)` -/
 theorem C35_partial :
-    (∀ (cs : List Conn) (T : Option Nat), (∀ c ∈ cs, c ≠ .silent) → ∀ k, (pickedUpAt T cs k).isSome = true) ∧
-    (∀ (T B : Nat) (cs : List Conn), (∀ w, Conn.completes w ∈ cs → w ≤ B) →
-      ∀ k, ∃ t, pickedUpAt (some T) cs k = some t ∧ t ≤ k * max T B) :=
-  ⟨fun cs T h => pickedUpAt_no_silent cs h T, pickedUpAt_bounded⟩
+    (∀ (cs : List Conn) (R W : Option Nat), (∀ c ∈ cs, c.wellBehaved = true) → ∀ k, (pickedUpAt R W cs k).isSome = true) ∧
+    (∀ (T B : Nat) (cs : List Conn), (∀ c ∈ cs, c.work ≤ B) →
+      ∀ k, ∃ t, pickedUpAt (some T) (some T) cs k = some t ∧ t ≤ k * (T + B)) :=
+  ⟨fun cs R W h => pickedUpAt_well_behaved cs h R W, pickedUpAt_bounded⟩
 
-/-- the probe's expectation follows the flag regenerated from the source: bounded read ⇒ served -/
-theorem probe_expectation : secondClientServed true = true ∧ secondClientServed false = false := by decide
+/-- the real-thread probe's expectation follows the flags: bounded ⇒ the second client is served -/
+theorem probe_expectation :
+    servedBehindSilent true = true ∧ servedBehindSilent false = false ∧
+    servedBehindDeaf true = true ∧ servedBehindDeaf false = false := by decide
+
+/-- non-vacuity of `next_client_served`: a queue with a silent client, one that never reads and a
+    well-behaved one meets the hypothesis, and the third is reached at 1 + (0 + 1) = 2 with `T = 1` -/
+example : (∀ c ∈ [Conn.silent, .neverReads 0, .completes 3], c.work ≤ 3) ∧
+    pickedUpAt (some 1) (some 1) [.silent, .neverReads 0, .completes 3] 2 = some 2 := by decide
 
 /-! ### non-vacuity: the theorem is about a tree with live primitives, and it distinguishes -/
 
